@@ -104,6 +104,43 @@ func RunN(doc map[string]any, sql string, o Opts, n int, extra ...genql.QueryOpt
 	return out
 }
 
+// Prepared is a constructed Query (or the failure to construct one) that can be executed later, any number of times.
+type Prepared struct {
+	q      *genql.Query
+	failed *Out
+}
+
+// Build constructs a query under recover without executing it.
+func Build(doc map[string]any, sql string, o Opts, extra ...genql.QueryOption) (p *Prepared) {
+	defer func() {
+		if r := recover(); r != nil {
+			p = &Prepared{failed: &Out{Panic: fmt.Sprintf("%v\n%s", r, trimStack(debug.Stack()))}}
+		}
+	}()
+	q, err := genql.New(doc, sql, append(o.list(), extra...)...)
+	if err != nil {
+		return &Prepared{failed: &Out{Err: err.Error(), AtNew: true}}
+	}
+	return &Prepared{q: q}
+}
+
+// Exec executes the prepared query under recover.
+func (p *Prepared) Exec() (out Out) {
+	if p.failed != nil {
+		return *p.failed
+	}
+	defer func() {
+		if r := recover(); r != nil {
+			out = Out{Panic: fmt.Sprintf("%v\n%s", r, trimStack(debug.Stack()))}
+		}
+	}()
+	rows, err := p.q.Exec()
+	if err != nil {
+		return Out{Err: err.Error(), ErrRows: len(rows)}
+	}
+	return Out{Raw: rows, Rows: val.NormRows(rows)}
+}
+
 func Run(doc map[string]any, sql string, o Opts, extra ...genql.QueryOption) (out Out) {
 	defer func() {
 		if r := recover(); r != nil {
